@@ -1,7 +1,306 @@
-//! C03 — not built yet (stub).
+//! C03 — Size-limited encoding truncates cleanly and never exceeds the limit.
+//!
+//! Codec clause: model message -> hickory `Message` -> `emit` with `BinEncoder::set_max_size(L)`
+//! for limits constructed at the interesting places (record boundaries ± 0..3, inside a name /
+//! the fixed fields / the RDATA of a record, inside OPT, inside TSIG, and the customary sizes).
+//! Server clause: see `server_limits` (requests through the real front door and `ResponseHandle`).
 
-use crate::core::Check;
+use hickory_proto::op::Message;
+use hickory_proto::serialize::binary::{BinDecodable, BinDecoder, BinEncodable, BinEncoder};
+use proptest::prelude::*;
+use serde::{Deserialize, Serialize};
+
+use crate::checks::codec_util as cu;
+use crate::core::{prop, CaseResult, Check, Rec};
+use crate::gen::msg;
+use crate::refm::wire_ref::{self as w, MMessage};
+
+#[derive(Clone, Debug, Serialize, Deserialize)]
+enum LimitSel {
+    /// end of record k (in emission order) plus delta
+    Boundary(usize, i8),
+    /// inside record k at fraction f/256 of its length
+    Inside(usize, u8),
+    /// inside the owner name / fixed part / RDATA of record k
+    InName(usize),
+    InFixed(usize, u8),
+    InRdata(usize, u8),
+    Fixed(u16),
+    /// anywhere between 12 and the full length + 8
+    Anywhere(u16),
+    /// inside the question section
+    InQuestion(u8),
+}
+
+fn limit_sel() -> impl Strategy<Value = LimitSel> {
+    prop_oneof![
+        5 => (any::<usize>(), -3i8..=3).prop_map(|(k, d)| LimitSel::Boundary(k, d)),
+        2 => (any::<usize>(), any::<u8>()).prop_map(|(k, f)| LimitSel::Inside(k, f)),
+        2 => any::<usize>().prop_map(LimitSel::InName),
+        2 => (any::<usize>(), 0u8..10).prop_map(|(k, o)| LimitSel::InFixed(k, o)),
+        2 => (any::<usize>(), any::<u8>()).prop_map(|(k, f)| LimitSel::InRdata(k, f)),
+        2 => prop::sample::select(vec![12u16, 13, 511, 512, 513, 1232, 4096, 65_535]).prop_map(LimitSel::Fixed),
+        2 => any::<u16>().prop_map(LimitSel::Anywhere),
+        1 => any::<u8>().prop_map(LimitSel::InQuestion),
+    ]
+}
+
+#[derive(Clone, Debug, Serialize, Deserialize)]
+struct Case {
+    m: MMessage,
+    limit: LimitSel,
+}
+
+fn resolve_limit(sel: &LimitSel, full: &[u8]) -> (usize, &'static str) {
+    let sp = w::split(full).ok();
+    let n = full.len();
+    let recs = sp.as_ref().map(|s| s.records.as_slice()).unwrap_or(&[]);
+    let clamp = |x: i64| -> usize { x.clamp(12, 65_535) as usize };
+    let kind_of = |r: &w::RawRr| -> &'static str {
+        match r.rtype {
+            w::T_OPT => "opt",
+            w::T_TSIG => "tsig",
+            _ => "rr",
+        }
+    };
+    match sel {
+        LimitSel::Fixed(v) => (*v as usize, "fixed"),
+        LimitSel::Anywhere(v) => (clamp(12 + (*v as i64 % (n as i64 + 8 - 12).max(1))), "anywhere"),
+        LimitSel::InQuestion(f) => {
+            let qe = recs.first().map(|r| r.start).unwrap_or(n);
+            (clamp(12 + (*f as i64 * (qe as i64 - 12).max(0)) / 256), "in-question")
+        }
+        _ if recs.is_empty() => (clamp(n as i64), "no-records"),
+        LimitSel::Boundary(k, d) => {
+            let r = &recs[k % recs.len()];
+            (clamp(r.rdata_end as i64 + *d as i64), if *d == 0 { "on-boundary" } else if *d < 0 { "just-below-boundary" } else { "just-above-boundary" })
+        }
+        LimitSel::Inside(k, f) => {
+            let r = &recs[k % recs.len()];
+            (clamp(r.start as i64 + (*f as i64 * (r.rdata_end - r.start) as i64) / 256), match kind_of(r) {
+                "opt" => "inside-opt",
+                "tsig" => "inside-tsig",
+                _ => "inside-record",
+            })
+        }
+        LimitSel::InName(k) => {
+            let r = &recs[k % recs.len()];
+            (clamp(r.start as i64 + 1), "inside-name")
+        }
+        LimitSel::InFixed(k, o) => {
+            let r = &recs[k % recs.len()];
+            (clamp(r.rdata_start as i64 - 10 + *o as i64), "inside-fixed-fields")
+        }
+        LimitSel::InRdata(k, f) => {
+            let r = &recs[k % recs.len()];
+            let l = (r.rdata_end - r.rdata_start) as i64;
+            (clamp(r.rdata_start as i64 + (*f as i64 * l) / 256), match kind_of(r) {
+                "opt" => "inside-opt",
+                "tsig" => "inside-tsig",
+                _ => "inside-rdata",
+            })
+        }
+    }
+}
+
+fn truncation_body(c: &Case, rec: &mut Rec) -> CaseResult {
+    let built = match cu::build_message(&c.m) {
+        Ok(b) => b,
+        Err(_) => {
+            rec.discard("not-assemblable");
+            return Ok(());
+        }
+    };
+    let orig = built.msg;
+    let full = match orig.to_vec() {
+        Ok(b) => b,
+        Err(_) => {
+            rec.discard("full-encoding-failed");
+            return Ok(());
+        }
+    };
+    // what the full encoding decodes to is the reference for "the original sections" (C02 covers that
+    // this equals `orig`); if the unlimited encoding itself truncated (over 64K) skip
+    let full_msg = match Message::from_vec(&full) {
+        Ok(m) => m,
+        Err(_) => {
+            rec.discard("full-encoding-undecodable");
+            return Ok(());
+        }
+    };
+    if full_msg.answers.len() != orig.answers.len() || full_msg.authorities.len() != orig.authorities.len() || full_msg.additionals.len() != orig.additionals.len() {
+        rec.discard("over-64k");
+        return Ok(());
+    }
+    let (limit, place) = resolve_limit(&c.limit, &full);
+    let mut buf = Vec::with_capacity(512);
+    let res = {
+        let mut enc = BinEncoder::new(&mut buf);
+        enc.set_max_size(limit as u16);
+        orig.emit(&mut enc)
+    };
+    rec.class(format!("limit={place}"));
+    if let Err(_e) = res {
+        rec.class("outcome=error");
+        return Ok(());
+    }
+    vensure!(buf.len() <= limit, "encoded-longer-than-limit", "limit {limit}, {} octets produced", buf.len());
+    let mut dec = BinDecoder::new(&buf);
+    let got = match Message::read(&mut dec) {
+        Ok(m) => m,
+        Err(e) => vfail!("truncated-encoding-does-not-decode", "limit {limit} of {} octets: {e}", full.len()),
+    };
+    vensure!(
+        dec.is_empty(),
+        "trailing-octets-after-truncation",
+        "limit {limit} (full {}): {} octets returned, decoding stops at {} leaving {} octets",
+        full.len(),
+        buf.len(),
+        dec.index(),
+        dec.len()
+    );
+    // header counts equal the records present — via the independent splitter
+    match w::split(&buf) {
+        Ok(sp) => vensure!(sp.end == buf.len(), "trailing-octets-after-truncation", "splitter: records end at {} of {}", sp.end, buf.len()),
+        Err(e) => vfail!("header-counts-disagree-with-records", "limit {limit}: {e}"),
+    }
+    // questions intact
+    vensure!(got.queries.len() == orig.queries.len(), "question-dropped", "{} of {} questions", got.queries.len(), orig.queries.len());
+    // each section a deep-equal prefix
+    let mut dropped = 0usize;
+    let mut kept = 0usize;
+    let mut cut_section = "none";
+    for (name, g, o) in [("answer", &got.answers, &orig.answers), ("authority", &got.authorities, &orig.authorities), ("additional", &got.additionals, &orig.additionals)] {
+        vensure!(g.len() <= o.len(), "section-grew", "{name}: {} records, original {}", g.len(), o.len());
+        for (i, (x, y)) in g.iter().zip(o.iter()).enumerate() {
+            if let Err(e) = cu::record_deep_eq(&format!("{name}[{i}]"), y, x) {
+                vfail!("section-not-a-prefix", "limit {limit}: {e}");
+            }
+        }
+        kept += g.len();
+        if g.len() < o.len() {
+            dropped += o.len() - g.len();
+            if cut_section == "none" {
+                cut_section = name;
+            }
+        }
+    }
+    match (&got.edns, &orig.edns) {
+        (None, None) => {}
+        (None, Some(_)) => {
+            dropped += 1;
+            if cut_section == "none" {
+                cut_section = "opt";
+            }
+        }
+        (Some(_), None) => vfail!("opt-invented", "truncated encoding has an OPT the original lacks"),
+        (Some(a), Some(b)) => {
+            kept += 1;
+            // rcode_high is committed from the header on emit
+            let mut b2 = b.clone();
+            b2.set_rcode_high(orig.metadata.response_code.high());
+            if let Err(e) = cu::edns_deep_eq(&Some(a.clone()), &Some(b2)) {
+                vfail!("opt-changed-by-truncation", "{e}");
+            }
+        }
+    }
+    match (&got.signature, &orig.signature) {
+        (None, None) => {}
+        (None, Some(_)) => {
+            dropped += 1;
+            if cut_section == "none" {
+                cut_section = "tsig";
+            }
+        }
+        (Some(_), None) => vfail!("tsig-invented", "truncated encoding has a TSIG the original lacks"),
+        (Some(a), Some(b)) => {
+            kept += 1;
+            vensure!(a.data == b.data && cu::labels(&a.name) == cu::labels(&b.name), "tsig-changed-by-truncation", "{a:?} vs {b:?}");
+        }
+    }
+    // header: TC' = TC ∨ dropped, everything else unchanged
+    let (gm, om) = (&got.metadata, &orig.metadata);
+    let exp_tc = om.truncation || dropped > 0;
+    vensure!(
+        gm.truncation == exp_tc,
+        if exp_tc { "tc-not-set-after-drop" } else { "tc-set-without-drop" },
+        "limit {limit}: dropped {dropped} records, original TC {}, result TC {}",
+        om.truncation,
+        gm.truncation
+    );
+    vensure!(
+        gm.id == om.id
+            && gm.message_type == om.message_type
+            && gm.op_code == om.op_code
+            && gm.authoritative == om.authoritative
+            && gm.recursion_desired == om.recursion_desired
+            && gm.recursion_available == om.recursion_available
+            && gm.authentic_data == om.authentic_data
+            && gm.checking_disabled == om.checking_disabled
+            && gm.response_code.low() == om.response_code.low(),
+        "header-changed-by-truncation",
+        "{gm:?} vs {om:?}"
+    );
+    if got.edns.is_some() {
+        vensure!(gm.response_code == om.response_code, "header-changed-by-truncation", "rcode {:?} vs {:?}", gm.response_code, om.response_code);
+    }
+    rec.class(format!("cut-section={cut_section}"));
+    rec.class(if dropped == 0 { "outcome=complete" } else { "outcome=truncated" });
+    if dropped > 0 && kept > 0 {
+        rec.nontrivial();
+        if rec.wants_note() {
+            rec.note(format!(
+                "full {}B ({} an/{} au/{} ad, edns={}, tsig={}), limit {limit} ({place}) -> {}B, kept {kept}, dropped {dropped}, first cut in {cut_section}",
+                full.len(),
+                orig.answers.len(),
+                orig.authorities.len(),
+                orig.additionals.len(),
+                orig.edns.is_some(),
+                orig.signature.is_some(),
+                buf.len()
+            ));
+        }
+    }
+    Ok(())
+}
 
 pub fn check() -> Option<Check> {
-    None
+    let trunc = prop(
+        "codec_truncation",
+        60_000,
+        2_000_000,
+        |_| {
+            (
+                prop_oneof![
+                    5 => msg::message_with(msg::SizeClass::Small, false),
+                    5 => msg::message_with(msg::SizeClass::Medium, false),
+                    1 => msg::message_with(msg::SizeClass::ManyNames, false),
+                ],
+                limit_sel(),
+            )
+                .prop_map(|(m, limit)| Case { m, limit })
+        },
+        truncation_body,
+    );
+    let trunc_large = prop(
+        "codec_truncation_large",
+        400,
+        20_000,
+        |_| {
+            (prop_oneof![msg::message_large(), msg::message_with(msg::SizeClass::BigRdata, false)], limit_sel()).prop_map(|(m, limit)| Case { m, limit })
+        },
+        truncation_body,
+    );
+    let mut subs = vec![trunc, trunc_large];
+    subs.extend(crate::checks::c03_server::subs());
+    Some(Check {
+        id: "C03",
+        level: "exploration",
+        rule: "codec: model messages (as C02) × limits constructed at record boundaries ±0..3, inside the owner name / fixed fields / RDATA of a chosen record, inside OPT / TSIG, inside the question section, the customary sizes {12,13,511,512,513,1232,4096,65535} and anywhere in 12..full+8, × EDNS × TSIG × original TC. Non-trivial = distinct (message, limit) AND ≥1 record dropped AND ≥1 kept. Server: see per_sub / classes (zones with RRsets that overflow × advertised payload × UDP/TCP); non-trivial = the full answer does not fit the applicable limit",
+        assumptions: vec![
+            "sections are compared at hickory's Message level: `additionals` must be a prefix of the original additionals; OPT and TSIG are separate fields that are either intact or dropped (dropping counts towards TC)",
+            "a message whose unlimited encoding already exceeds 65,535 octets is out of domain",
+        ],
+        subs,
+    })
 }
